@@ -46,8 +46,8 @@ func (c08) NewScenario() any { return &C08Scenario{} }
 // fields the reference peer writes as a client towards a daemon
 var c08ClientPullFields = []string{"greeting", "module", "arg", "argend", "filter.len", "filter.rule", "filter.end", "req.idx", "req.count", "req.blocklen", "req.stronglen", "req.remainder", "req.weak", "req.strong", "phase", "goodbye"}
 var c08ClientPushFields = []string{"greeting", "module", "arg", "flist.flags", "flist.inherit", "flist.namelen", "flist.namelen8", "flist.name", "flist.size", "flist.mtime", "flist.mode", "flist.uid", "flist.gid", "flist.rdev", "flist.linklen", "flist.link", "flist.sum", "flist.end", "uidlist.id", "uidlist.len", "uidlist.name", "uidlist.end", "gidlist.id", "gidlist.len", "gidlist.end", "flist.ioerr", "rep.idx", "rep.count", "rep.blocklen", "rep.stronglen", "rep.remainder", "rep.littoken", "rep.literal", "rep.blocktoken", "rep.endtoken", "rep.filesum", "phase.echo", "filter.len", "filter.rule"}
-var c08ServerSendFields = []string{"greeting", "status", "version", "seed", "flist.flags", "flist.inherit", "flist.namelen", "flist.namelen8", "flist.name", "flist.size", "flist.mtime", "flist.mode", "flist.uid", "flist.gid", "flist.rdev", "flist.linklen", "flist.link", "flist.sum", "flist.end", "uidlist.id", "uidlist.len", "uidlist.name", "uidlist.end", "gidlist.id", "gidlist.len", "flist.ioerr", "rep.idx", "rep.count", "rep.blocklen", "rep.stronglen", "rep.remainder", "rep.littoken", "rep.literal", "rep.blocktoken", "rep.endtoken", "rep.filesum", "phase.echo", "stats.read", "stats.size"}
-var c08ServerRecvFields = []string{"greeting", "status", "seed", "req.idx", "req.count", "req.blocklen", "req.stronglen", "req.remainder", "req.weak", "req.strong", "phase", "goodbye"}
+var c08ServerSendFields = []string{"mux.header", "mux.header", "greeting", "status", "version", "seed", "flist.flags", "flist.inherit", "flist.namelen", "flist.namelen8", "flist.name", "flist.size", "flist.mtime", "flist.mode", "flist.uid", "flist.gid", "flist.rdev", "flist.linklen", "flist.link", "flist.sum", "flist.end", "uidlist.id", "uidlist.len", "uidlist.name", "uidlist.end", "gidlist.id", "gidlist.len", "flist.ioerr", "rep.idx", "rep.count", "rep.blocklen", "rep.stronglen", "rep.remainder", "rep.littoken", "rep.literal", "rep.blocktoken", "rep.endtoken", "rep.filesum", "phase.echo", "stats.read", "stats.size"}
+var c08ServerRecvFields = []string{"mux.header", "mux.header", "greeting", "status", "seed", "req.idx", "req.count", "req.blocklen", "req.stronglen", "req.remainder", "req.weak", "req.strong", "phase", "goodbye"}
 
 // count-like fields: no multi-gigabyte declarations (outside the guarantee)
 var c08CountLike = map[string]bool{"flist.namelen": true, "flist.linklen": true, "filter.len": true, "rep.littoken": true, "req.count": true, "req.blocklen": true, "rep.count": true, "rep.blocklen": true, "flist.size": false}
